@@ -69,6 +69,13 @@ def _is_model_class(t):
     return isinstance(t, type) and (issubclass(t, Obj) or issubclass(t, ModelValue))
 
 
+class ClassMethodVal(object):
+    """`classmethod(f)` of the analysed code: called with the class of the receiver."""
+
+    def __init__(self, fn):
+        self.fn = fn
+
+
 class Closure(object):
     """A nested function of the analysed code together with the scope of the call that defined it (python cells: read when the body runs)."""
 
@@ -135,7 +142,7 @@ class Opaque(object):
 PURE_BUILTINS = {
     'range': range, 'len': len, 'dict': dict, 'list': list, 'tuple': tuple, 'sorted': sorted, 'set': set,
     'int': int, 'str': str, 'min': min, 'max': max, 'zip': zip, 'enumerate': enumerate, 'map': None, 'filter': None,
-    'True': True, 'False': False, 'None': None, 'sum': sum, 'abs': abs, 'bool': bool, 'ord': ord, 'chr': chr, 'type': type, 'isinstance': isinstance,
+    'True': True, 'False': False, 'None': None, 'sum': sum, 'abs': abs, 'pow': pow, 'hex': hex, 'bool': bool, 'ord': ord, 'chr': chr, 'type': type, 'isinstance': isinstance,
 }
 SAFE_METHODS = {
     list: {'index', 'count', 'copy'}, tuple: {'index', 'count'},
@@ -189,6 +196,13 @@ class Evaluator(object):
             return v.attrs[n.attr]             # a modelled callable with data attributes (e.g. the `limit` of a modular integer type)
         if n.attr == '__class__' and isinstance(v, ModelValue):
             return type(v)
+        if isinstance(v, type) and issubclass(v, Obj) and hasattr(v, '_class_attrs'):
+            ca = v._class_attrs()
+            if n.attr in ca:
+                return ca[n.attr]
+            if n.attr == '__name__':
+                return v.__name__
+            raise PyRaise('class %s has no attribute %s' % (v.__name__, n.attr), 'AttributeError')
         if isinstance(v, ModelValue) and n.attr in getattr(v, 'model_attrs', ()):
             return getattr(v, n.attr)
         if _is_model_class(v) and n.attr in getattr(v, 'model_attrs', ()):
@@ -240,6 +254,11 @@ class Evaluator(object):
             if isinstance(n.op, ast.Mod):
                 return a % b
             if isinstance(n.op, ast.LShift):
+                if isinstance(a, int) and isinstance(b, int) and not isinstance(b, bool) and b > 65536:
+                    # the analysed code builds an integer of b bits: recorded (resource bound), and the shift is cut short -- every consumer reduces the result
+                    if getattr(self, 'flags', None) is not None:
+                        self.flags.add('lshift by %d' % b)
+                    return a << 65536
                 return a << b
             if isinstance(n.op, ast.RShift):
                 return a >> b
@@ -255,6 +274,9 @@ class Evaluator(object):
                 return a // b if a % b == 0 else a / b
             if isinstance(n.op, ast.Pow) and isinstance(a, int) and isinstance(b, int) and 0 <= b < 256:
                 return a ** b
+            if isinstance(n.op, ast.Pow) and isinstance(a, int) and isinstance(b, int) and b >= 256 and getattr(self, 'flags', None) is not None:
+                self.flags.add('exact power with exponent %d' % b)
+                return pow(a, b, 1 << 4096)
         except NotConst:
             raise
         except Exception as e:
@@ -377,6 +399,10 @@ class Evaluator(object):
     def call_value(self, tgt, args, kw=None):
         """Call a function value of the analysed code: a def, a closure, a lambda, a checker-side stand-in or model class."""
         kw = kw or {}
+        if isinstance(tgt, ClassMethodVal):
+            if args and not isinstance(args[0], type):
+                args = [type(args[0])] + list(args[1:])
+            return self.call_value(tgt.fn, args, kw)
         if isinstance(tgt, Native):
             return tgt.fn(*args, **kw)
         if isinstance(tgt, ast.FunctionDef):
@@ -637,6 +663,9 @@ class Evaluator(object):
                     continue
                 except _Break:
                     break
+        elif isinstance(st, ast.Assert):
+            if not self.ev(st.test, loc):
+                raise PyRaise('assertion failed', 'AssertionError')
         elif isinstance(st, ast.Delete):
             for t in st.targets:
                 if isinstance(t, ast.Subscript) and not isinstance(t.slice, ast.Slice):
